@@ -469,7 +469,8 @@ theorem parse_dict_group_mid {mt : Bytes} {G : Tag} {C : List DNode} (hg : FlatG
     (hbl : atoi t9.value = .ok ((fieldsLength (t8 :: t9 :: t35 :: ((preA ++ g0 :: M) ++ (z0 :: postB ++ [t10]))) : Nat) : Int)) :
     ∃ m, parseMessage Fixes.cur d (wireOf (t8 :: t9 :: t35 :: ((preA ++ g0 :: M) ++ (z0 :: postB ++ [t10])))) = .ok m ∧
       m.fields = t8 :: t9 :: t35 :: ((preA ++ g0 :: M) ++ (z0 :: postB ++ [t10])) ∧
-      alFind m.body.lookup G = some (.view (3 + preA.length) (1 + M.length)) := by
+      alFind m.body.lookup G = some (.view (3 + preA.length) (1 + M.length)) ∧
+      ((∀ tv ∈ postB, tv.tag ≠ z0.tag) → alFind m.body.lookup z0.tag = some (.view (3 + preA.length + 1 + M.length) 1)) := by
   have hz0 := hz z0 (by simp)
   have hrestW : ∀ tv ∈ (preA ++ g0 :: M) ++ (z0 :: postB ++ [t10]), IsWire tv := by
     intro tv htv
@@ -548,16 +549,26 @@ theorem parse_dict_group_mid {mt : Bytes} {G : Tag} {C : List DNode} (hg : FlatG
     show (runNDD d _ postB _ c4).xmlDataMsg = false
     rw [runNDD_xml]; exact hc4xm
   rw [finish_ok _ C5 t9 e9 (by simp) hbl hxm5]
-  refine ⟨_, rfl, rfl, ?_⟩
-  show alFind (finishAdjust C5).body.lookup G = _
-  rw [(finishAdjust_keeps _).2.2.1, hC5hb.2]
-  show alFind ((runNDD d _ postB _ c4).sec .b).lookup G = _
-  rw [runNDD_find_absent G .b postB _ _ c4 (fun tv h => hzG tv (by simp [h]))]
-  show alFind c4.body.lookup G = _
-  rw [hc4b]
-  simp only [FieldMap.add]
-  rw [alFind_insert_other _ _ _ _ (fun e => hzG z0 (by simp) e.symm), hG, alFind_insert_self]
-  congr 2; omega
+  refine ⟨_, rfl, rfl, ?_, ?_⟩
+  · show alFind (finishAdjust C5).body.lookup G = _
+    rw [(finishAdjust_keeps _).2.2.1, hC5hb.2]
+    show alFind ((runNDD d _ postB _ c4).sec .b).lookup G = _
+    rw [runNDD_find_absent G .b postB _ _ c4 (fun tv h => hzG tv (by simp [h]))]
+    show alFind c4.body.lookup G = _
+    rw [hc4b]
+    simp only [FieldMap.add]
+    rw [alFind_insert_other _ _ _ _ (fun e => hzG z0 (by simp) e.symm), hG, alFind_insert_self]
+    congr 2; omega
+  · -- the field behind the group is found in the body
+    intro hpz
+    show alFind (finishAdjust C5).body.lookup z0.tag = _
+    rw [(finishAdjust_keeps _).2.2.1, hC5hb.2]
+    show alFind ((runNDD d _ postB _ c4).sec .b).lookup z0.tag = _
+    rw [runNDD_find_absent z0.tag .b postB _ _ c4 hpz]
+    show alFind c4.body.lookup z0.tag = _
+    rw [hc4b]
+    simp only [FieldMap.add]
+    exact alFind_insert_self _ _ _
 
 
 /-! ## reading the group back through the dictionary's template -/
@@ -594,5 +605,65 @@ theorem read_back_flat (L A rest : List TagValue) (G d0 : Tag) (ts : List Tag) (
     have := flatMap_serEntry_length es
     simp [readFuel, this]; omega
   simp only [getGroup, readGroup_flat G d0 ts rest hrest es hes hn _ hfuel]
+
+
+/-! ## behind a nested group: the fixed and the original `parseGroup` (D6) -/
+
+/-- `G` is a repeating group of message type `mt` with member list `C`, one of whose members, `N`, is a nested repeating group
+    with member list `CN` (no further nesting) -/
+structure NestedGroup (d : Dicts) (mt : Bytes) (G N : Tag) (C CN : List DNode) : Prop where
+  defd : ∃ msgs fs nG nN, d.app = some msgs ∧ alFindB msgs mt = some fs ∧ dfind fs G = some nG ∧ nG.children = C ∧
+    dfind C N = some nN ∧ nN.children = CN
+  neC : C.isEmpty = false
+  neN : CN.isEmpty = false
+  leavesN : ∀ n ∈ CN, n.children.isEmpty = true
+
+theorem nested_walks {mt : Bytes} {G N : Tag} {C CN : List DNode} (hg : NestedGroup d mt G N C CN) (fields : List TagValue)
+    (hd : FieldMap) (t35 : TagValue) (hmt : MTInv fields hd t35) (hv : t35.value = mt) :
+    isNumInGroupField d fields hd [G] = true ∧ getGroupFields d fields hd [G] = C := by
+  obtain ⟨msgs, fs, nG, nN, hap, hfs, hnG, hcG, hnN, hcN⟩ := hg.defd
+  have hmf : msgFields d fields hd = some fs := by simp only [msgFields, hap, hmt.getBytes, hv, hfs]
+  have hne : nG.children.isEmpty = false := by rw [hcG]; exact hg.neC
+  have hCne : C ≠ [] := by intro e; rw [e] at hg; exact absurd hg.neC (by simp)
+  exact ⟨by simp [isNumInGroupField, hmf, pathWalk, hnG, hne], by simp [getGroupFields, hmf, pathWalk, hnG, hne, hcG, hCne]⟩
+
+/-- AFTER THE FIX (D6): a field behind a nested group that is a member of NO enclosing group ends the group: the group field
+    (count, members, nested members) is added to the body and the field itself as a body field — it is not swallowed -/
+theorem grpSwitch_fixed_exits {mt : Bytes} {G N : Tag} {C CN : List DNode} (hg : NestedGroup d mt G N C CN)
+    (fields : List TagValue) (idx j : Nat) (c : PCore) (tv g0 t35 : TagValue)
+    (hmt : MTInv fields c.header t35) (hv : t35.value = mt) (hj : fields[j]? = some g0)
+    (hmN : isGroupMember tv.tag CN = false) (hmC : isGroupMember tv.tag C = false)
+    (hh : isHeaderField d tv.tag = false) (ht : isTrailerField d tv.tag = false) (hng : NoGroupTag d tv.tag) :
+    grpSwitch Fixes.cur d fields idx tv j [G, N] CN c =
+      .ok ({ c with trailerBytes := c.rawBytes, body := (c.body.add g0.tag (.view j (idx - j))).add tv.tag (.view idx 1) }, none) := by
+  have hidxR : idxR fields j = .ok g0 := by simp [idxR, hj]
+  obtain ⟨_, hgf⟩ := nested_walks hg fields c.header t35 hmt hv
+  simp only [grpSwitch, hmN, hh, ht, isNum_false d _ _ tv.tag hng, Fixes.cur, if_true, Bool.false_eq_true, if_false,
+    List.reverse_cons, List.reverse_nil, List.nil_append, List.cons_append, popToMember, hgf, hmC, addDm, hidxR]
+
+/-- AFTER THE FIX: a field behind a nested group that is a member of the PARENT group continues the parent group
+    (the tag stack is popped to the parent) -/
+theorem grpSwitch_fixed_parent_member {mt : Bytes} {G N : Tag} {C CN : List DNode} (hg : NestedGroup d mt G N C CN)
+    (fields : List TagValue) (idx j : Nat) (c : PCore) (tv t35 : TagValue)
+    (hmt : MTInv fields c.header t35) (hv : t35.value = mt)
+    (hmN : isGroupMember tv.tag CN = false) (hmC : isGroupMember tv.tag C = true)
+    (hleaf : isNumInGroupField d fields c.header [G, tv.tag] = false)
+    (hh : isHeaderField d tv.tag = false) (ht : isTrailerField d tv.tag = false) (hng : NoGroupTag d tv.tag) :
+    grpSwitch Fixes.cur d fields idx tv j [G, N] CN c = .ok ({ c with trailerBytes := c.rawBytes }, some (.grp j [G] C)) := by
+  obtain ⟨_, hgf⟩ := nested_walks hg fields c.header t35 hmt hv
+  simp only [grpSwitch, hmN, hh, ht, isNum_false d _ _ tv.tag hng, Fixes.cur, if_true, Bool.false_eq_true, if_false,
+    List.reverse_cons, List.reverse_nil, List.nil_append, List.cons_append, popToMember, hgf, hmC, hleaf]
+
+/-- THE UNCHANGED CODE (D6): behind a nested group EVERY body field — member of an enclosing group or not — is kept inside
+    the group ("belongs to the parent" was decided by asking whether the parent is a group): `Body.Has` is false for it -/
+theorem grpSwitch_orig_swallows {mt : Bytes} {G N : Tag} {C CN : List DNode} (hg : NestedGroup d mt G N C CN)
+    (fields : List TagValue) (idx j : Nat) (c : PCore) (tv t35 : TagValue)
+    (hmt : MTInv fields c.header t35) (hv : t35.value = mt)
+    (hmN : isGroupMember tv.tag CN = false)
+    (hh : isHeaderField d tv.tag = false) (ht : isTrailerField d tv.tag = false) (hng : NoGroupTag d tv.tag) :
+    grpSwitch Fixes.orig d fields idx tv j [G, N] CN c = .ok ({ c with trailerBytes := c.rawBytes }, some (.grp j [G, N] C)) := by
+  obtain ⟨hnum, hgf⟩ := nested_walks hg fields c.header t35 hmt hv
+  simp [grpSwitch, hmN, hh, ht, isNum_false d _ _ tv.tag hng, Fixes.orig, hnum, hgf]
+
 
 end Qfx
